@@ -78,6 +78,13 @@ func (vc *VC) execCall(fr *Frame, n *Node, instr ssa.Instruction, call *ssa.Call
 	}
 	if callee == nil {
 		// unknown function value: closed-world targets (every repository function of that signature used as a value)
+		// a value of a named function type with a contract `T.call`: abstract procedure
+		if nt, ok := types.Unalias(call.Value.Type()).(*types.Named); ok {
+			if fc, ok := vc.p.ifaceContracts[typeName(nt)+".call"]; ok {
+				vc.callFuncTypeContract(fr, n, fc, call, res, vc.val(fr, call.Value), args, instr.Pos(), typeName(nt)+".call")
+				return n
+			}
+		}
 		dkey := dynCallName(call.Value)
 		fr.callOrd["@dyn "+dkey]++
 		dord := fr.callOrd["@dyn "+dkey]
@@ -676,6 +683,78 @@ func (vc *VC) callInvoke(fr *Frame, n *Node, call *ssa.CallCommon, res ssa.Value
 	}
 	vc.bindResult(fr, n, res, vc.havocResults(fr, n, call.Signature(), call.Method.Name()))
 	return n
+}
+
+// callFuncTypeContract: a call through a value of a named function type under the type's contract.
+func (vc *VC) callFuncTypeContract(fr *Frame, n *Node, fc *FuncContract, call *ssa.CallCommon, res ssa.Value, self string, args []string, pos token.Pos, key string) {
+	names := map[string]Val{"self": {T: self, Ty: call.Value.Type()}}
+	sig := call.Signature()
+	for i := 0; i < sig.Params().Len() && i < len(args); i++ {
+		nm := sig.Params().At(i).Name()
+		if nm == "" {
+			nm = fmt.Sprintf("arg%d", i)
+		}
+		names[nm] = Val{T: args[i], Ty: sig.Params().At(i).Type()}
+	}
+	pre := n.env.clone()
+	var pkg *types.Package
+	if nt, ok := types.Unalias(call.Value.Type()).(*types.Named); ok {
+		pkg = nt.Obj().Pkg()
+	}
+	sc := &SpecCtx{vc: vc, fr: fr, node: n, env: n.env, old: pre, names: names, pkg: pkg}
+	explicit := false
+	for _, c := range fc.Clauses {
+		if c.Kind == "modifies" {
+			explicit = true
+			for _, loc := range splitTopLevel(c.Text) {
+				if err := vc.havocLoc(sc, n, loc); err != nil {
+					vc.specError(c, err)
+				}
+			}
+		}
+	}
+	if !explicit {
+		targets := vc.p.funcValueTargets(sig)
+		maps := map[string]bool{}
+		for _, t := range targets {
+			if ms := vc.p.autoMods[t]; ms != nil {
+				if ms.Top {
+					vc.havocAll(fr, n, "call through "+key)
+				}
+				for k := range ms.Maps {
+					maps[k] = true
+				}
+			}
+		}
+		var nms []string
+		for k := range maps {
+			nms = append(nms, k)
+		}
+		sort.Strings(nms)
+		vc.havocMaps(n, nms)
+	}
+	vc.used["function-type contract (assumed for every value of the type; closures assigned to it are verified against their own contracts): "+key] = true
+	results := vc.havocResults(fr, n, sig, "fv")
+	vc.bindResult(fr, n, res, results)
+	sc2 := &SpecCtx{vc: vc, fr: fr, node: n, env: n.env, old: pre, names: names, pkg: pkg}
+	for i, r := range results {
+		v := Val{T: r, Ty: sig.Results().At(i).Type()}
+		sc2.names[fmt.Sprintf("result%d", i)] = v
+		if len(results) == 1 {
+			sc2.names["result"] = v
+		}
+	}
+	for _, c := range fc.Clauses {
+		if c.Kind != "ensures" {
+			continue
+		}
+		f, err := sc2.formula(c.E)
+		if err != nil {
+			vc.specError(c, err)
+			continue
+		}
+		n.assume(f)
+	}
 }
 
 func (vc *VC) callIfaceContract(fr *Frame, n *Node, fc *FuncContract, call *ssa.CallCommon, res ssa.Value, recv string, args []string, pos token.Pos, key string) {
